@@ -451,7 +451,7 @@ class Scheduler(Subject):
                     first_transition_uuid,
                     second_transition_uuid,
                     node,
-                    False,
+                    True,
                 )
 
                 if self.loop_counters.get(task_context.uuid) is None:
